@@ -1352,5 +1352,7 @@ def run(chk):
 
     from verif import fallthrough
     fallthrough.run(chk, "C13", floor=3)
+    from verif import argorder
+    argorder.run(chk, "C13", floor=48)
 
     chk.assumptions += ["closure of the parallel loop is followed to depth 3 within EclipseGrid.cpp, GridDims.cpp and calculateCellVol.cpp; std:: callees are trusted to be re-entrant"]
